@@ -618,9 +618,37 @@ pub fn gen_sequence(rng: &mut Rng, max_ops: usize, miri: bool) -> (Vec<Op>, KeyS
     let style = *rng.pick(&[KeyStyle::Random, KeyStyle::Sorted, KeyStyle::Reverse, KeyStyle::EqualPrefix, KeyStyle::Large, KeyStyle::Mixed, KeyStyle::EqualPrefix, KeyStyle::Sorted]);
     let huge = rng.chance(1, 10);
     let mut g = Gen { rng: Rng::new(rng.next()), style, counter: 0, huge };
-    let n = if miri { rng.usize(20, max_ops) } else { rng.usize(max_ops / 4, max_ops) };
+    let n = if miri { rng.usize(60, max_ops) } else { rng.usize(max_ops / 4, max_ops) };
     let mut ops = vec![];
     let mut known: Vec<Vec<u8>> = vec![];
+    if !miri && rng.chance(1, 8) {
+        // append-fill stratum: the bulk-load shape (ascending keys through insert_append with the carried
+        // rightmost hint), value lengths uniform so that every residue of free space at the moment a leaf
+        // fills up is reached (the append fast path decides "fits" on its own, separately from insert())
+        let mut g = Gen { rng: Rng::new(rng.next()), style: KeyStyle::Sorted, counter: 0, huge: false };
+        ops.push(Op::Reopen { use_hint: true });
+        let top = *rng.pick(&[24usize, 64, 300, 1200]);
+        for i in 0..n {
+            let k = g.key();
+            let l = rng.usize(0, top);
+            let mut v = vec![i as u8; l];
+            if l >= 8 {
+                v[..8].copy_from_slice(&(i as u64).to_le_bytes());
+            }
+            known.push(k.clone());
+            ops.push(Op::Append(k, v));
+            if rng.chance(1, 40) {
+                let k = rng.pick(&known).clone();
+                ops.push(Op::Get(k));
+            }
+            if rng.chance(1, 150) {
+                ops.push(Op::ScanFwd);
+            }
+        }
+        ops.push(Op::ScanFwd);
+        ops.push(Op::ScanBack);
+        return (ops, KeyStyle::Sorted, false);
+    }
     let use_hint = rng.chance(1, 2);
     ops.push(Op::Reopen { use_hint });
     // phase weights: build-up, churn, drain (emptying whole leaves), rebuild
@@ -755,7 +783,7 @@ pub fn run_engine(a: &Args, prop: &'static str) -> i32 {
     let rule = "generated op sequences (insert / insert_if_not_exists / insert_append / update / delete / get / cursor seek / forward+backward scans / new BTree instance with or without carried rightmost hint) over key styles random, sorted, reverse, equal-4-byte-prefix, large keys, mixed; phases build-up -> churn -> drain (deleting whole key ranges so leaves empty) -> rebuild. Each op runs on a fresh BTree instance carrying root page and hint as the database does. distinct_nontrivial = distinct sequences (hash of ops) in which the tree reached >= 2 leaves (a split happened)";
     let mut ctx = Ctx::new(prop, &a.tier, a.seed, "exploration", rule);
     let quick = ctx.quick();
-    let (nseq, max_ops) = if miri { (3, 120) } else if quick { (1500, 500) } else { (12000, 700) };
+    let (nseq, max_ops) = if miri { (6, 120) } else if quick { (1500, 500) } else { (12000, 700) };
     let threads = if miri { 1 } else { 16 };
     let seed = a.seed;
     let results = std::sync::Mutex::new(Vec::new());
